@@ -330,6 +330,8 @@ def cmd_check(pid, tier):
         return spec['custom'](pid, tier, deadline)
     units = spec['units'](tier)
     agg, bins = run_units(pid, tier, units, deadline)
+    if 'extra' in spec:
+        spec['extra'](pid, tier, agg, deadline)
     return finish_check(pid, tier, spec.get('level', 'model_checking'), agg, bins, t0, spec['rule'], spec['assumptions'],
                         min_nontrivial=spec.get('min_nontrivial', 2))
 
